@@ -166,6 +166,7 @@ func slowWatchScenario(c *vk.C, rng *rand.Rand, k int) {
 
 func scenario(c *vk.C, rng *rand.Rand, k int) {
 	cfg := rtp.GenCfg(rng, rtp.GenOpts{MaxCtrls: 3, MaxQ: 2, CachedProb: 0.4, AllowFilterShadow: k%3 == 0})
+	cfg.MergeBatches = k%2 == 1 // re-batched aggregated events (bootstrap batch continuing with live events, ...)
 
 	w, err := rtp.NewWorld(rng, cfg)
 	if err != nil {
